@@ -158,6 +158,7 @@ def run(ck, fb, fbd):
     abs_reductions(ck, fb)
     norm_and_apply(ck, fb)
     compare_rule(ck, fb)
+    minmax_flag_rule(ck, fb)
     normal_attrib(ck, fb)
     # ---------------- geometry kernel
     ng = 0
@@ -220,6 +221,17 @@ def run(ck, fb, fbd):
                         sp = (steps[0][1], steps[0][2])
                         ok = f.dominates(pts[0][0], sp) and f.dominates(pts[1][0], sp) and f.dominates(sp, pts[2][0])
                     why = "points %s around %d increment(s)" % ([e for p_, e in pts], len(steps))
+            # the two sides of a face are opposite: the cross-product formula is only evaluated for one side, the other is its
+            # negation (evaluating it on the reversed halfedge list picks another corner of the face)
+            from .canon import ceq
+            odd = [(b_, x_) for b_, i_, x_ in rets if re.fullmatch(r"-(this\.)?normal\((\w+::)?opposite_halfface_handle\(P0\)\)|\(-1(\.0)? \* normal\(opposite_halfface_handle\(P0\)\)\)|-normal\(P0\.opposite_handle\(\)\)", cn.s(x_.get("x")))]
+            okodd = False
+            for b_, x_ in odd:
+                fs_ = {(s_, p_) for s_, p_, c_ in cn.facts(b_)}
+                if (ceq("P0.subidx()", "1"), True) in fs_ or (ceq("(P0.idx() % 2)", "1"), True) in fs_ or (ceq("P0.subidx()", "0"), False) in fs_ or (ceq("(P0.idx() & 1)", "1"), True) in fs_ or ("(P0.idx() & 1)", True) in fs_:
+                    okodd = True
+            mainside = any((ceq("P0.subidx()", "1"), False) in {(s_, p_) for s_, p_, c_ in cn.facts(b_)} or (ceq("(P0.idx() % 2)", "1"), False) in {(s_, p_) for s_, p_, c_ in cn.facts(b_)} or (ceq("P0.subidx()", "0"), True) in {(s_, p_) for s_, p_, c_ in cn.facts(b_)} or ("(P0.idx() & 1)", False) in {(s_, p_) for s_, p_, c_ in cn.facts(b_)} for b_, i_, x_ in main)
+            (ck.ok if (okodd and mainside) else lambda r, w, t: ck.violate(r, w, t, "C19.geom:normal:sides"))("C19.geom", f.where, "normal(hf): the formula is evaluated for one side of the face only and the other side returns the negated normal of its opposite (odd-side return %s, formula restricted to the even side %s)" % (okodd, mainside))
             (ck.ok if ok else lambda r, w, t: ck.violate(r, w, t, "C19.geom:normal"))("C19.geom", f.where, "normal(hf) = ((p2-p1) x (p3-p2)).normalized() with p1,p2 the ends of the first and p3 the end of the second halfedge of the halfface (%s)" % why)
     ck.floor("geometry_queries", ng, 12)
 
@@ -262,6 +274,39 @@ def norm_and_apply(ck, fb):
         ok = len(tr) == 1 and len(tr[0].get("a", [])) >= 3 and cn.s(tr[0]["a"][0]).replace("this.", "") in ("values_.cbegin()", "values_.begin()") and cn.s(tr[0]["a"][1]).replace("this.", "") in ("values_.cend()", "values_.end()") and re.fullmatch(r"(v\d+|VectorT\(\))\.values_\.begin\(\)", cn.s(tr[0]["a"][2]) or "") is not None
         (ck.ok if ok else lambda r, w, t: ck.violate(r, w, t, "C19.apply"))("C19.apply", f.where, "%s::apply transforms values_ into the result (found transform(%s))" % (f.cls.replace("OpenVolumeMesh::Geometry::", ""), ", ".join(cn.s(a)[:25] for a in (tr[0].get("a", []) if tr else []))))
     ck.floor("norm_and_apply_members", n, 3)
+
+
+def minmax_flag_rule(ck, fb):
+    """minimized / maximized: the returned flag says that a coordinate was changed"""
+    from .canon import Canon
+    ck.rule("C19.flag", "minimized()/maximized() set their result flag only under the strict fact that the other vector's component is smaller (greater) than this vector's, and store that component there; equal components leave the flag alone (F44)")
+    n = 0
+    for name, strict in (("minimized", ("(P1 < P0)", "(P0 > P1)")), ("maximized", ("(P1 > P0)", "(P0 < P1)"))):
+        for f in vec_fns(fb, name=name):
+            lams = [g for g in fb.fns.values() if g.kind == "lambda" and g.has_cfg and g.file == f.file and f.line <= g.line <= f.line + 16]
+            if not lams:
+                ck.cannot_judge("C19.flag %s: %s has no component lambda - written in another form" % (f.where, name))
+                continue
+            g = lams[0]
+            cg = Canon(g)
+            sets = [(b, x) for b, i, x in g.tops() if as_assign(x) and b in g.reach() and cg.s(as_assign(x)[1]) in ("true", "1")]
+            if not sets:
+                ck.cannot_judge("C19.flag %s: the flag of %s is not set by an assignment of true inside the component lambda" % (f.where, name))
+                continue
+            n += 1
+            ok = True
+            why = []
+            for b, x in sets:
+                fs_ = {(s_, p_) for s_, p_, c_ in cg.facts(b)}
+                if not any((s_, True) in fs_ for s_ in strict):
+                    ok = False
+                    why.append("set under %s" % sorted(fs_))
+                rets = [cg.s(y.get("x")) for bb, ii, y in g.tops() if bb == b and y.get("k") == "ret"]
+                if rets and rets != ["P1"]:
+                    ok = False
+                    why.append("stores %s" % rets)
+            (ck.ok if ok else lambda r_, w_, t_: ck.violate(r_, w_, t_, "C19.flag:%s" % name))("C19.flag", f.where, "%s::%s signals only a coordinate that changed (%s)" % (f.cls.replace("OpenVolumeMesh::Geometry::", ""), name, "strict comparison" if ok else "; ".join(why)[:120]))
+    ck.floor("minmax_flag_members", n, 2)
 
 
 def compare_rule(ck, fb):
